@@ -112,3 +112,71 @@ package api
 //@   opaque New, Then, TracingHandler, getLogHandler, NotFoundHandler, NewHeaderOnceResponseWriter, WriteHeader
 //@   ensures [custom-handler-else-the-default] calls(Then) == 1 && (next != nil ==> arg(Then, 0) == next && calls(http.NotFoundHandler) == 0) && (next == nil ==> arg(Then, 0) == ret(http.NotFoundHandler))
 //@   ensures [served-through-the-once-writer-then-404] calls(ServeHTTP) == 1 && calls(WriteHeader) == 1 && calls(cw.WriteHeader, 404) == 1 && cw == ret(response.NewHeaderOnceResponseWriter) && before(ServeHTTP, WriteHeader) && arg(response.NewHeaderOnceResponseWriter, 0) == w && arg(ServeHTTP, 0) == cw && arg(ServeHTTP, 1) == r
+
+// ---- route registration (server.go) ----
+
+// AddRoutes: the group holds the caller's routes, every option is applied to the group once, in order, and the
+// group is queued for binding.
+//@ func (*Server).AddRoutes
+//@   prop C03, C04
+//@   opaque addRoutes
+//@   requires s != nil && s.ng != nil
+//@   loop 1 invariant -1 <= rangeindex && rangeindex < len(opts) || len(opts) == 0
+//@   loop 1 iteration-ensures [option-applied-to-this-group] calls(opt) == 1 && opt == at_head(opts[rangeindex + 1])
+//@   ensures [queued-once] calls(s.ng.addRoutes) == 1
+
+// WithPrefix: every route of THIS group gets the prefix joined in front of its own path and keeps its method and
+// handler; the caller's route values are not written (the same routes may be registered again under another
+// prefix).
+//@ func WithPrefix$1
+//@   prop C03
+//@   requires r != nil
+//@   loop 1 invariant -1 <= rangeindex && len(routes) == rangeindex + 1 && (rangeindex < len(r.routes) || rangeindex == -1) && (cap(routes) == 0 || fresh(routes))
+//@   loop 1 invariant len(r.routes) == old(len(r.routes)) && forall(j, 0, len(r.routes), r.routes[j].Path == old(r.routes[j].Path) && r.routes[j].Method == old(r.routes[j].Method) && r.routes[j].Handler == old(r.routes[j].Handler))
+//@   loop 1 invariant forall(j, 0, len(routes), routes[j].Method == r.routes[j].Method && routes[j].Handler == r.routes[j].Handler)
+//@   loop 1 iteration-ensures [prefix-joined-to-this-route] calls(path.Join) == 1 && len(arg(path.Join, 0)) == 2 && arg(path.Join, 0)[0] == group && arg(path.Join, 0)[1] == at_head(r.routes[rangeindex + 1].Path) && routes[len(routes) - 1].Path == ret(path.Join)
+//@   ensures [as-many-routes] len(r.routes) == old(len(r.routes))
+//@   ensures [same-methods] forall(j, 0, len(r.routes), r.routes[j].Method == old(r.routes[j].Method))
+//@   ensures [same-handlers] forall(j, 0, len(r.routes), r.routes[j].Handler == old(r.routes[j].Handler))
+
+// WithJwt / WithJwtTransition: a secret shorter than 8 bytes is refused (panic) before anything is enabled;
+// otherwise the gate is enabled with exactly the given secrets.
+//@ func WithJwt$1
+//@   prop C04
+//@   requires r != nil
+//@   may-panic validateSecret
+//@   ensures [enabled-with-this-secret] len(secret) >= 8 && r.jwt.enabled && r.jwt.secret == secret && r.jwt.prevSecret == old(r.jwt.prevSecret)
+//@   panic-ensures [short-secret-refused] len(secret) < 8 && r.jwt.enabled == old(r.jwt.enabled)
+//@ func WithJwtTransition$1
+//@   prop C04
+//@   requires r != nil
+//@   may-panic validateSecret
+//@   ensures [enabled-with-these-secrets] len(secret) >= 8 && r.jwt.enabled && r.jwt.secret == secret && r.jwt.prevSecret == prevSecret
+//@   panic-ensures [short-secret-refused] len(secret) < 8 && r.jwt.enabled == old(r.jwt.enabled)
+//@ func validateSecret
+//@   prop C04
+//@   ensures [long-enough] len(secret) >= 8
+//@   panic-ensures [too-short] len(secret) < 8
+
+// WithSignature: the gate is enabled with the configured strictness, tolerance and keys.
+//@ func WithSignature$1
+//@   prop C04
+//@   requires r != nil
+//@   ensures [enabled-as-configured] r.signature.enabled && r.signature.Strict == signature.Strict && r.signature.Expire == signature.Expire && r.signature.PrivateKeys == signature.PrivateKeys
+
+// WithTimeout / WithMaxBytes / WithPriority: only that setting of the group changes.
+//@ func WithTimeout$1
+//@   prop C02
+//@   requires r != nil
+//@   modifies r.timeout
+//@   ensures [this-timeout] r.timeout == timeout
+//@ func WithMaxBytes$1
+//@   prop C02
+//@   requires r != nil
+//@   modifies r.maxBytes
+//@   ensures [this-limit] r.maxBytes == maxBytes
+//@ func WithPriority$1
+//@   prop C02, C09
+//@   requires r != nil
+//@   modifies r.priority
+//@   ensures [priority] r.priority
